@@ -298,12 +298,14 @@ class LoadedMessageInterface(Protocol):
         ...
 
     @abstractmethod
-    def contains(self, value: bytes) -> bool:
+    def contains(self, value: bytes, *, headers: bool = True) -> bool:
         """Check the body of the message for a sub-string. This may be
         optimized to only search headers and ``text/*`` MIME parts.
 
         Args:
             value: The sub-string to find.
+            headers: If False, the header of the message itself is not
+                searched, only its body (the ``BODY`` search key).
 
         """
         ...
